@@ -213,6 +213,8 @@ void World::opEnc(const Item& op)
         probe("nth-call-needs-segmentation");
     if (n.encodeCalls > 1)
         probe("nth-call-on-same-encoder");
+    if (n.encodeCalls == 257)
+        probe("more-than-256-calls-on-one-encoder");
     if (minB == maxB)
         probe("min-equals-max");
     for (auto& fr : frames)
